@@ -55,7 +55,20 @@ func quoRemWant(xv, yv ref.Val, m int) (q, rem ref.Val, qzeroSignFree bool, cell
 	return qv, rv, n.Sign() == 0, cell
 }
 
-func checkQuoRem(w *eng.W, xb, yb ref.Bits, m int) {
+// checkQuoRemModes checks all six modes when the quotient has to be rounded, and two (nearest-even and
+// toward +Inf) when the integer quotient is exact, where the mode cannot matter.
+func checkQuoRemModes(w *eng.W, xb, yb ref.Bits) {
+	cell := checkQuoRem(w, xb, yb, 0)
+	if strings.HasPrefix(cell, "q-rounded") || strings.HasPrefix(cell, "q-overflow") {
+		for m := 1; m < 6; m++ {
+			checkQuoRem(w, xb, yb, m)
+		}
+		return
+	}
+	checkQuoRem(w, xb, yb, 5)
+}
+
+func checkQuoRem(w *eng.W, xb, yb ref.Bits, m int) string {
 	xv, yv := ref.Decode(xb), ref.Decode(yb)
 	wq, wr, zfree, cell := quoRemWant(xv, yv, m)
 	w.Set2("QuoRemWithMode", ref.ModeNames[m], xb, yb)
@@ -73,6 +86,7 @@ func checkQuoRem(w *eng.W, xb, yb ref.Bits, m int) {
 		w.R.Fail(eng.Case{Op: "QuoRemWithMode", Args: []string{xb.Hex(), yb.Hex()}, Mode: MName(m),
 			Got: gqv.String() + " rem " + grv.String(), Want: wq.String() + " rem " + wr.String(), Note: fmt.Sprintf("x=%s y=%s cell=%s", xv, yv, cell)})
 	}
+	return cell
 }
 
 func init() {
@@ -125,9 +139,7 @@ func C03(r *eng.Run) {
 				for s := 0; s < 4; s++ {
 					xb := MkBits(s&1 == 1, shapes[i], qx)
 					yb := MkBits(s&2 == 2, c2, qy)
-					for m := 0; m < 6; m++ {
-						checkQuoRem(w, xb, yb, m)
-					}
+					checkQuoRemModes(w, xb, yb)
 				}
 			}
 			if w.Stopped() {
